@@ -312,7 +312,16 @@ func (db *DB) schema(of Object) (s *Schema, err error) {
 		return
 	}
 
-	return db.loadSchema(of)
+	// the routine must also be started when the schema has just been loaded,
+	// otherwise writes made by the very first call on the collection stay
+	// pending until another call is made
+	if s, err = db.loadSchema(of); s != nil && (err == nil || errors.Is(err, ErrIndexCorrupted)) {
+		if _, ok = db.schemas[stype(of)]; ok {
+			db.startAsyncWritesRoutine(s)
+		}
+	}
+
+	return
 }
 
 func (db *DB) itemname(o Object) string {
